@@ -68,8 +68,23 @@ pub fn within_budget(v: &FieldValue, b: Budget) -> bool {
     m.nodes <= b.nodes && m.depth <= b.depth && m.array <= b.array && m.map <= b.map
 }
 
-/// Our own statement of "an f64 that a stored f32 can read back as": exact widening (CBOR) or the
-/// parse of the shortest decimal of the nearest f32 (JSON).
+/// The JSON clause as `serde_json` (ryu) prints an f32: the parse of *its* shortest decimal.
+pub fn json_clause_ryu(v: f64) -> bool {
+    if v.is_nan() {
+        return false;
+    }
+    let f = v as f32;
+    if !f.is_finite() {
+        return false;
+    }
+    let s = serde_json::to_string(&f).unwrap();
+    matches!(s.parse::<f64>(), Ok(p) if p == v)
+}
+
+/// The JSON clause as the code states it (`format!("{f}")`, Rust's `Display`). The two printers
+/// agree except on ties between two equally short decimals (e.g. 38312.0625f32 is "38312.063" for
+/// `Display` and "38312.062" for ryu); see notes/C13.md. This one is what the model is given as
+/// its hint, because it is the code's definition.
 pub fn json_clause(v: f64) -> bool {
     if v.is_nan() {
         return false;
@@ -78,11 +93,11 @@ pub fn json_clause(v: f64) -> bool {
     if !f.is_finite() {
         return false;
     }
-    // shortest round-trip decimal, through serde_json (ryu) rather than `format!`
-    let s = serde_json::to_string(&f).unwrap();
-    matches!(s.parse::<f64>(), Ok(p) if p.to_bits() == v.to_bits() || p == v)
+    matches!(format!("{f}").parse::<f64>(), Ok(p) if p == v)
 }
 
+/// Our own statement of "an f64 that a stored f32 can read back as": exact widening (CBOR) or the
+/// parse of a shortest round-trip decimal of the nearest f32 (JSON; either printer).
 pub fn f32_read_back(v: f64) -> bool {
     if v.is_nan() {
         return false;
@@ -91,7 +106,7 @@ pub fn f32_read_back(v: f64) -> bool {
     if f.is_infinite() && v.is_finite() {
         return false;
     }
-    (f as f64) == v || json_clause(v)
+    (f as f64) == v || json_clause(v) || json_clause_ryu(v)
 }
 
 fn wildcard_of(m: &BTreeMap<FieldKey, FieldType>) -> Option<(&FieldKey, &FieldType)> {
